@@ -413,6 +413,17 @@ CORPUS = [
     {"bases": ["ef1", "ef0"], "read_via": "direct", "fam": "corpus-external",
      "ops": [{"op": "make_external", "i": 0, "j": 0, "val": 1}, {"op": "get_domain", "i": 0, "variant": "call"}],
      "write": W([2], "Z", external={"key": "X", "via": "scratch"})},
+    # (seed robustness) the target is a LINK to the external file: by the time "external == target" is
+    # tested the link has been replaced by a file of its own; named directly it is refused; append
+    {"bases": ["ef0", "ef1"], "read_via": "direct", "fam": "corpus-external",
+     "ops": [{"op": "make_external", "i": 1, "j": 0, "val": 2}, {"op": "touch", "i": 1, "variant": "to_memory"}],
+     "write": W([1], "X", "filelink", external={"key": "X", "via": "dotdot"})},
+    {"bases": ["ef0", "ef1"], "read_via": "direct", "fam": "corpus-external",
+     "ops": [{"op": "make_external", "i": 1, "j": 0, "val": 2}],
+     "write": W([1], "X", "alias", external={"key": "X", "via": "direct"})},
+    {"bases": ["ef0", "ef1"], "read_via": "direct", "fam": "corpus-external",
+     "ops": [{"op": "make_external", "i": 1, "j": 0, "val": 2}],
+     "write": W([1], "X", "filelink", mode="a", external={"key": "X", "via": "scratch"})},
     # ---- second deepening round ---------------------------------------------------------
     # the list variable of a gathered field has no netCDF name (read from file, brought into memory)
     {"bases": ["gath", "ef0"], "read_via": "direct", "fam": "corpus-gathered",
